@@ -147,7 +147,7 @@ var propSpecs = map[string]*PropSpec{
 		Patterns:    []string{"./..."},
 		Level:       "proof",
 		Explanation: "partial: for the arithmetic opcodes (add, subtract, multiply, divide, modulo, the fused increment, negate) every numeric kind the language reference prescribes has a case in the dispatch, each case asserts both operands to its own kind and computes with the opcode's own operator in operand order (a zero divisor is refused first), Increment handles exactly what Add handles, and the step the compiler pushes for x++ / x-- is the untyped constant 1 (structural obligations from go/types on every run); the opcodes hand data.Normalize the constness of each operand and the type mode, and apply the strict-mode kind check exactly when neither operand is a constant (anchored assertions, deductive)",
-		TrustedBase: []string{"data.Normalize / Coerce / CoerceLossless convert values as documented (not under contract: no bit-vector mode in the engine; exercised by the bounded matrix)", "Go's own arithmetic on the asserted operand types is the fixed-width arithmetic of the language reference", "float and complex value semantics are not modelled"},
+		TrustedBase: []string{"data.Coerce / CoerceLossless convert values as documented (not under contract: no bit-vector mode in the engine; exercised by the bounded matrix); data.Normalize decides which operand is converted and is under a path contract", "Go's own arithmetic on the asserted operand types is the fixed-width arithmetic of the language reference", "float and complex value semantics are not modelled"},
 		Extra:       c03Extra,
 	},
 	"C34": {
